@@ -24,6 +24,8 @@ impl<T> DeserializeOwned for T {}
 pub trait Serialize {}
 impl<T> Serialize for T {}
 pub fn vx_exit() -> ! { std::process::exit(1) }
+pub fn vx_delete_scope(_kv: &KeyValueStore, _scope: &Ident) -> Result<(), KeyValueError> { unimplemented!() }
+impl From<KeyValueError> for AggregateStoreError { fn from(_e: KeyValueError) -> Self { unimplemented!() } }
 pub fn vx_make_mut<T: Clone>(a: &mut Arc<T>) -> &mut T { Arc::make_mut(a) }
 pub fn vx_arc_ref<T>(a: &Arc<T>) -> &T { a.as_ref() }
 '''
@@ -34,6 +36,12 @@ SPEC = r'''
 #[verifier::external_trait_specification] pub trait ExDeserializeOwned { type ExternalTraitSpecificationFor: DeserializeOwned; }
 #[verifier::external_trait_specification] pub trait ExSerialize { type ExternalTraitSpecificationFor: Serialize; }
 pub assume_specification [vx_exit] () -> ! ;
+/// `self.kv.execute(Some(&scope), |kv| kv.delete_scope(&scope))`: the stored files of the instance are removed (ASSUMED, tagged substitution)
+pub assume_specification [vx_delete_scope] (kv: &KeyValueStore, scope: &Ident) -> (r: Result<(), KeyValueError>);
+pub assume_specification [<AggregateStoreError as From<KeyValueError>>::from] (e: KeyValueError) -> (r: AggregateStoreError);
+/// the instances for which the history cache (a Mutex-protected map, outside the verifier) holds command records
+pub uninterp spec fn hist_of(h: Option<Mutex<HashMap<MyHandle, Vec<CommandHistoryRecord>>>>) -> Set<MyHandle>;
+pub open spec fn history_cached<A: Aggregate>(s: AggregateStore<A>) -> Set<MyHandle> { hist_of(s.history_cache) }
 /// ASSUMED (std): Arc::make_mut gives exclusive access to the value (cloning it first when shared): the value seen through the
 /// reference is the Arc's value, and the Arc holds whatever the reference is left with.  (Tagged substitution to a wrapper for
 /// Sized T: the std signature is for ?Sized T, for which Verus cannot state equality.)
@@ -206,7 +214,7 @@ def build():
     prelude.time(U)
     prelude.hashmap(U)
     U.opaque('MyHandle', 'Clone, PartialEq, Eq, Hash')
-    for t in ['KeyValueStore', 'CommandHistoryRecord', 'Transaction']:
+    for t in ['KeyValueStore', 'CommandHistoryRecord', 'Transaction', 'KeyValueError']:
         U.opaque(t, '')
     U.opaque('Ident', 'Clone')
     U.outside(R.OUT)
@@ -259,6 +267,17 @@ def build():
             ('the_cached_instance', 'r == (if self.cache@.contains_key(*id) { Some(self.cache@[*id]) } else { None::<Arc<A>> })')]),
         U.fn(ST, 'AggregateStore', 'cache_update', mut_self=True, unlock=['cache'], requires=km, ensures=[
             ('only_this_instance_replaced', 'final(self).cache@ == old(self).cache@.insert(*id, arc)')]),
+        U.fn(ST, 'AggregateStore', 'cache_remove', mut_self=True, unlock=['cache'], requires=km, ensures=[
+            ('only_this_instance_forgotten', 'final(self).cache@ == old(self).cache@.remove(*id) && history_cached(*final(self)) == history_cached(*old(self))')]),
+        # Mutex-protected map: body outside the verifier, contract ASSUMED (what is verified is that drop_aggregate calls it)
+        U.fn(ST, 'AggregateStore', 'history_cache_remove', mut_self=True, external_body=True, ensures=[
+            ('history_of_this_instance_forgotten', 'history_cached(*final(self)) == history_cached(*old(self)).remove(*id) && final(self).cache@ == old(self).cache@')]),
+        U.fn(ST, 'AggregateStore', 'scope_for_agg', external_body=True),
+        U.fn(ST, 'AggregateStore', 'drop_aggregate', mut_self=True, requires=km,
+             subst=[('self.kv.execute(Some(&scope), |kv| kv.delete_scope(&scope))', 'vx_delete_scope(&self.kv, &scope)', 'R14')],
+             ensures=[('nothing_of_the_dropped_instance_stays_in_memory', '''r is Ok ==> !final(self).cache@.contains_key(*id) && !history_cached(*final(self)).contains(*id)'''),
+                      ('other_instances_untouched', '''forall |h: MyHandle| h != *id ==> (#[trigger] final(self).cache@.contains_key(h) == old(self).cache@.contains_key(h))
+                            && (history_cached(*final(self)).contains(h) == history_cached(*old(self)).contains(h))''')]),
         U.fn(ST, 'AggregateStore', 'key_for_snapshot', external_body=True, ensures=[('names', '*r == snap_key()')]),
         U.fn(ST, 'AggregateStore', 'key_for_command', external_body=True, ensures=[('names', '*r == cmd_key(version)')]),
         U.closure_fn(ST, 'AggregateStore', 'execute_opt_command', 0, 'vx_command_tx',
@@ -322,7 +341,7 @@ def build():
                                 assert(covers(*aggregate, kvmap(*kv)));
                             }'''),
                             (('before', 'if changed_from_cached {', 0), '''proof { assert(store_inv::<A>(self.cache@, kvmap(*kv), *handle));
-                                assert(changed_from_cached ==> coherent(*agg, kvmap(*kv), *handle) && covers(*agg, kvmap(*kv))); }'''),
+                                /*@only_an_instance_that_is_the_replay_of_the_log_goes_into_the_cache*/ assert(changed_from_cached ==> coherent(*agg, kvmap(*kv), *handle) && covers(*agg, kvmap(*kv))); }'''),
                             (('before', 'if save_snapshot {', 0), 'let ghost vx_m2 = kvmap(*kv); proof { assert(store_inv::<A>(self.cache@, vx_m2, *handle)); }'),
                             (('before', 'if let Err(e) = res {', 0), '''proof { if save_snapshot {
                                 let b = kvmap(*kv)[snap_key()]; assert(kvmap(*kv) =~= vx_m2.insert(snap_key(), b));
